@@ -162,3 +162,7 @@ class Commands:
             return cmd_type.parse(buf, params)
         except NotParseable as exc:
             return InvalidCommand(params, exc, command, cmd_type), buf[0:0]
+        except RecursionError:
+            # e.g. thousands of nested parentheses in SEARCH
+            exc = NotParseable(buf)
+            return InvalidCommand(params, exc, command, cmd_type), buf[0:0]
